@@ -25,7 +25,7 @@ def run(ctx):
     s2 = core.absorb(ctx, ctx.harness(["c01-corpus", "-trace", t2, "-dontcare", dc], timeout=3000))
     acc = s1["extra"]["accepted"]
     layouts = sorted(set(k.split("/")[0] for k in acc))
-    never = sorted(set(k.split("/")[0] for k in s1["extra"]["rejected"]) - set(layouts))
+    never = sorted(l for l in set(k.split("/")[0] for k in s1["extra"]["rejected"]) - set(layouts) if not l.endswith("-odd"))   # "-odd" shapes may be rejected
     if never:
         # a layout no decoder path ever accepts says nothing about the code: the oracle (or the decoder) is off
         ctx.drift.append({"key": "layout-never-accepted", "what": "no instance of these layouts is accepted by any decode path", "case": never})
